@@ -58,6 +58,30 @@ def case_key(case: Any) -> int:
     return hash(json.dumps(jsonable(case), sort_keys=True, separators=(",", ":")))
 
 
+def guarded(fn: Callable[[Any], Optional[tuple]], case: Any) -> Optional[tuple]:
+    """Run a check function; an exception whose innermost frame lies in the repository under test is a
+    violation of the property being exercised (the library blew up on a legal use), anything else is a
+    harness error and propagates."""
+    try:
+        return fn(case)
+    except _Violation:
+        raise
+    except Exception as e:
+        from . import harness
+        tb = e.__traceback__
+        inner = None
+        while tb is not None:
+            inner = tb
+            tb = tb.tb_next
+        fname = inner.tb_frame.f_code.co_filename if inner else ""
+        repo = os.path.realpath(harness.REPO)
+        if os.path.realpath(fname).startswith(repo + os.sep):
+            func = inner.tb_frame.f_code.co_name
+            return (f"crash/{type(e).__name__}@{os.path.basename(fname)}:{func}",
+                    f"unexpected {type(e).__name__} from the library: {e!r}")
+        raise
+
+
 class Ctx:
     """Per-shard collection context handed to a property module's run()."""
 
@@ -161,7 +185,7 @@ class Ctx:
 
     def check(self, case: Any, fn: Callable[[Any], Optional[tuple]]) -> Optional[tuple]:
         """Run one case of an enumerated sweep through a check function."""
-        v = fn(case)
+        v = guarded(fn, case)
         if v is not None:
             self.violation(v[0], case, v[1])
         return v
@@ -180,7 +204,7 @@ class Ctx:
             state: dict = {"bucket": None, "case": None, "detail": None}
 
             def body(case):
-                v = check(case)
+                v = guarded(check, case)
                 if v is None:
                     return
                 bucket, detail = v
@@ -243,7 +267,7 @@ def _run_shard(args) -> dict:
                     if fn.startswith(prop_id + "-") and fn.endswith(".json"):
                         with open(os.path.join(rdir, fn)) as f:
                             rep = json.load(f)
-                        v = mod.replay(ctx, rep["case"])
+                        v = guarded(lambda c: mod.replay(ctx, c), rep["case"])
                         ctx.label("regression_replays")
                         if v is not None:
                             ctx.violation(v[0], rep["case"], v[1])
@@ -300,7 +324,7 @@ def main(argv=None) -> int:
         with open(a.replay) as f:
             rep = json.load(f)
         try:
-            v = mod.replay(ctx, rep["case"])
+            v = guarded(lambda c: mod.replay(ctx, c), rep["case"])
         except Exception:
             traceback.print_exc()
             return 2
